@@ -508,6 +508,8 @@ def needs_single(item):
 
 
 def cases(tier, seed):
+    for c in _unicode_symbol_cases():
+        yield c
     batch = []
     names = set()
     weight = [0]
@@ -1075,7 +1077,86 @@ def _thin_out_known(ctx, viol):
     return kept
 
 
+# ---------------------------------------------------------------------------------------------
+# symbol names with non-ASCII alphanumeric characters (SYMBOL-NAME: "a combination of alphanumeric characters and
+# underscores"; `def` accepts them): references to them must be substituted like any other, in every string form
+# ---------------------------------------------------------------------------------------------
+UNICODE_NAMES = ['größe', 'naïve', 'é', 'x_ü9', 'Ω']
+
+
+def _unicode_symbol_cases():
+    for i, name in enumerate(UNICODE_NAMES):
+        for lname in ('lïst', 'L2'):
+            yield {'kind': 'unicode-sym', 'name': name, 'lname': lname, 'n': i}
+
+
+def run_unicode_sym(case, ctx):
+    from vf import probe
+    import os
+    ses = ctx.get_session()
+    name, lname = case['name'], case['lname']
+    d = ses.new_case_dir({})
+    rec = os.path.join(d, 'rec.jsonl')
+    V = 'V 2'
+    lines = ['[setup]',
+             "def string %s = '%s'" % (name, V),
+             'def list %s = p q' % lname,
+             'file f1 = @[%s]@' % name,
+             'file f2 = "pre@[%s]@post"' % name,
+             "file f3 = 'hard @[%s]@'" % name,
+             'file f4 = <<EOF', 'here @[%s]@ doc' % name, 'EOF',
+             'file f5 = :> text @[%s]@ end' % name,
+             'file f6 = x@[%s]@' % name,
+             '%% %s %s id=u @[%s]@ x@[%s]@ "@[%s]@" @[%s]@ \'@[%s]@\'' % (probe.PROBE, rec, name, name, lname, lname, name),
+             '[act]', '$ true']
+    text = '\n'.join(lines) + '\n'
+    with open(os.path.join(d, 't.case'), 'w', encoding='utf-8') as f:
+        f.write(text)
+    r = ses.run(['--keep', os.path.join(d, 't.case')], cwd=d, mode='keep')
+    viol, inconc = [], []
+    want_files = {'f1': V, 'f2': 'pre' + V + 'post', 'f3': 'hard @[%s]@' % name, 'f4': 'here %s doc\n' % V,
+                  'f5': 'text %s end' % V, 'f6': 'x' + V}
+    want_argv = [V, 'x' + V, 'p q', 'p', 'q', '@[%s]@' % name]
+    nev = 0
+    if r.timed_out:
+        inconc.append('watchdog')
+    elif r.exc is not None or r.rc != 0:
+        viol.append({'what': 'C09 symbol named %r (alphanumeric, accepted by def): case using references to it does not '
+                             'PASS: %s' % (name, (r.err or str(r.exc))[:200]), 'detail': {'case_text': text}})
+    else:
+        sds = r.out.strip()
+        for fn, want in want_files.items():
+            nev += 1
+            ctx.count('c09.unicode_symbol_observations')
+            try:
+                with open(os.path.join(sds, 'act', fn), encoding='utf-8') as f:
+                    got = f.read()
+            except OSError as ex:
+                got = '<%s>' % ex
+            if got != want:
+                viol.append({'what': 'C09 reference to the symbol %r in `%s`: file holds %r, the syntax denotes %r' %
+                                     (name, [l for l in lines if l.startswith('file ' + fn)][0], got, want),
+                             'detail': {'case_text': text, 'kind': 'unicode-sym'}})
+        recs = probe.read_records(rec)
+        nev += 1
+        ctx.count('c09.unicode_symbol_observations')
+        if len(recs) != 1 or recs[0]['argv'] != want_argv:
+            viol.append({'what': 'C09 references to the symbols %r / %r as program arguments: argv %r, the syntax denotes %r'
+                                 % (name, lname, recs[0]['argv'] if recs else None, want_argv),
+                         'detail': {'case_text': text, 'kind': 'unicode-sym'}})
+    ses.clean_tmp()
+    ses.drop(d)
+    return {'classes': [('unicode-sym', name, lname)], 'viol': viol, 'inconclusive': inconc, 'evaluations': max(nev, 1),
+            'sample': {'case_text': text.replace(probe.PROBE, 'PROBE'), 'expected_files': want_files,
+                       'expected_argv': want_argv} if name == 'größe' and lname == 'L2' else None}
+
+
 def run_case(case, ctx):
+    if case.get('kind') == 'unicode-sym':
+        r = run_unicode_sym(case, ctx)
+        if r.get('sample') is None:
+            r.pop('sample', None)
+        return r
     ses = ctx.get_session()
     items = case['items']
     single = len(items) == 1
